@@ -205,3 +205,23 @@ func (fv *FnVerifier) bytesEqualTerm(st *State, a, b, name string) string {
 	fv.q.assume(fmt.Sprintf("(=> (not %s) (or (not (= (slen %s) (slen %s))) (and %s (not (= %s %s)))))", eq, a, b, rngw, at(a, w), at(b, w)))
 	return eq
 }
+
+// sentinelError: package-level error variables (ErrXxx) are assumed initialised once to distinct non-nil errors and never
+// reassigned (listed as an assumption).
+func (fv *FnVerifier) sentinelError(st *State, key string) {
+	fv.arrBase[key] = true
+	g := fv.heapGet(st, key)
+	if fv.sentinels == nil {
+		fv.sentinels = map[string]bool{}
+	}
+	if fv.sentinels[g] {
+		return
+	}
+	fv.q.assume("(not (= (itag " + g + ") 0))")
+	fv.q.assume("(not (= (ival " + g + ") 0))")
+	for o := range fv.sentinels {
+		fv.q.assume("(not (= " + g + " " + o + "))")
+	}
+	fv.sentinels[g] = true
+	fv.note("package-level error variables are non-nil, pairwise distinct and never reassigned")
+}
